@@ -172,8 +172,14 @@ pub struct TablePlan {
     pub round_trip: bool,
     /// C11-O2: also run without -o and compare the functions by name
     pub compare_default_order: bool,
-    /// C11-O4: in-process API ordering with these ids (distinct, possibly non-contiguous) for the text's names
-    pub api_ids: Option<Vec<usize>>,
+    /// C11-O4: in-process API ordering: (name, id) entries in vector order; distinct names, distinct
+    /// possibly non-contiguous ids in any order; may list only some of the text's names and names
+    /// the text does not use
+    pub api_ids: Option<Vec<(String, usize)>>,
+    /// C10: pad the text with a leading comment so that its first non-ASCII character straddles
+    /// this byte offset (a multiple of the default BufReader capacity)
+    #[serde(default)]
+    pub straddle: Option<usize>,
 }
 
 const FILTER_SPELLINGS: [&[&str]; 3] = [
@@ -324,18 +330,31 @@ pub fn gen_table_plan(rng: &mut Prng, property: &str, thorough: bool) -> TablePl
     let t = c11 || rng.chance(4, 5);
     let v = rng.chance(1, 3);
     let api_ids = if c11 && rng.chance(1, 2) {
-        // distinct ids with gaps
+        // distinct ids with gaps, for a subset / superset of the text's names, in any vector order
+        let mut names: Vec<String> = text_names.clone();
+        rng.shuffle(&mut names);
+        if rng.chance(1, 2) && !names.is_empty() {
+            let keep = rng.below(names.len() + 1);
+            names.truncate(keep);
+        }
+        for u in ["zz_api", "unused'"] {
+            if rng.chance(1, 5) && !text_names.iter().any(|n| n == u) {
+                let pos = rng.below(names.len() + 1);
+                names.insert(pos, u.to_string());
+            }
+        }
         let mut ids: Vec<usize> = Vec::new();
         let mut next = rng.below(3);
-        for _ in 0..text_names.len() {
+        for _ in 0..names.len() {
             ids.push(next);
             next += rng.range(1, 4);
         }
         rng.shuffle(&mut ids);
-        Some(ids)
+        Some(names.into_iter().zip(ids).collect())
     } else {
         None
     };
+    let straddle = if !c11 && wide.is_none() && rng.chance(1, 6) { Some(8192 * rng.range(1, 2)) } else { None };
     TablePlan {
         property: property.to_string(),
         formula,
@@ -355,6 +374,7 @@ pub fn gen_table_plan(rng: &mut Prng, property: &str, thorough: bool) -> TablePl
         round_trip: c11 && rng.chance(1, 3),
         compare_default_order: c11 && rng.chance(1, 2),
         api_ids,
+        straddle,
     }
 }
 
@@ -518,7 +538,17 @@ fn model_of(p: &TablePlan) -> Result<Model, String> {
     }
     let f = p.formula.as_ref().ok_or("plan without formula")?;
     let mut prng = Prng::new(p.print_seed);
-    let text = Printer::noisy(&mut prng, p.noise).print(f);
+    let mut text = Printer::noisy(&mut prng, p.noise).print(f);
+    if let Some(at) = p.straddle {
+        // leading comment of exactly the length that puts the first non-ASCII character's first
+        // byte at offset at-1 (so the character straddles a read-buffer boundary)
+        if let Some(pos) = text.bytes().position(|b| b >= 0x80) {
+            let pad = at - 1 - (pos % at);
+            if pad >= 3 {
+                text = format!("\"{}\"\n{}", "x".repeat(pad - 3), text);
+            }
+        }
+    }
     let text_names = f.names_in_text_order();
     let mut ev = Evaluator::new(&text_names).map_err(|e| format!("{e:?}"))?;
     let func = ev.eval(f).map_err(|e| format!("{e:?}"))?;
@@ -675,6 +705,9 @@ pub fn execute_table(p: &TablePlan) -> RunOutcome {
     bump(&mut stats, &format!("probe.opts.t{}v{}m{}r{}b{}f{}", p.t as u8, p.v as u8, p.m as u8, p.r as u8, p.b.map_or("-".to_string(), |n| n.to_string()), p.filter));
     if p.wide.is_some() {
         bump(&mut stats, "probe.wide_formula");
+    }
+    if p.straddle.is_some() && text.len() > 8000 {
+        bump(&mut stats, "fault.buffer-boundary-inside-utf8-char");
     }
 
     let base = run_rsbdd(
@@ -875,23 +908,40 @@ fn var_site(v: &Variant) -> &'static str {
     }
 }
 
-fn api_ordering_check(p: &TablePlan, model: &Model, ids: &[usize], func: &TT, vs: &mut Vec<Violation>, stats: &mut Stats) {
+fn api_ordering_check(p: &TablePlan, model: &Model, entries: &[(String, usize)], func: &TT, vs: &mut Vec<Violation>, stats: &mut Stats) {
     use rsbdd::parser::ParsedFormula;
     use rsbdd::NamedSymbol;
     let _ = p;
     let names = &model.text_names;
-    if ids.len() != names.len() {
-        return;
-    }
-    let ordering: Vec<NamedSymbol> = names
+    let ordering: Vec<NamedSymbol> = entries
         .iter()
-        .zip(ids)
         .map(|(n, id)| NamedSymbol {
             name: Rc::new(n.clone()),
             id: *id,
         })
         .collect();
+    // ids the variables must end up with: listed names keep theirs, the others follow the largest
+    // listed id in order of first appearance in the text
+    let mut next = entries.iter().map(|(_, id)| id + 1).max().unwrap_or(0);
+    let mut id_of: BTreeMap<String, usize> = BTreeMap::new();
+    for n in names {
+        match entries.iter().find(|(m, _)| m == n) {
+            Some((_, id)) => {
+                id_of.insert(n.clone(), *id);
+            }
+            None => {
+                id_of.insert(n.clone(), next);
+                next += 1;
+            }
+        }
+    }
     bump(stats, "fault.api-ordering-with-gaps");
+    if entries.len() < names.len() {
+        bump(stats, "probe.api.subset_ordering");
+    }
+    if entries.last().map(|(_, id)| *id) != entries.iter().map(|(_, id)| *id).max() {
+        bump(stats, "probe.api.last_entry_not_largest_id");
+    }
     let text = model.text.clone();
     rsbdd::verif_hooks::set_budget(Some(1 << 20));
     let r = catch(|| {
@@ -905,19 +955,7 @@ fn api_ordering_check(p: &TablePlan, model: &Model, ids: &[usize], func: &TT, vs
                 return Ok::<_, std::io::Error>(Err(format!("free_vars[to_free_index({})] is not {}", v.name, v.name)));
             }
         }
-        // vars lists each name once, in id order
-        let mut seen = Vec::new();
-        let mut last: Option<usize> = None;
-        for v in &pf.vars {
-            if seen.contains(v.name.as_ref()) {
-                return Ok(Err(format!("vars lists {} twice", v.name)));
-            }
-            seen.push(v.name.as_ref().clone());
-            if last.is_some_and(|l| l >= v.id) {
-                return Ok(Err("vars is not in id order".to_string()));
-            }
-            last = Some(v.id);
-        }
+        let vars: Vec<(String, usize)> = pf.vars.iter().map(|v| (v.name.as_ref().clone(), v.id)).collect();
         let free: Vec<String> = pf.free_vars.iter().map(|v| v.name.as_ref().clone()).collect();
         // function by name
         let n = names.len();
@@ -945,28 +983,28 @@ fn api_ordering_check(p: &TablePlan, model: &Model, ids: &[usize], func: &TT, vs
                 node = next;
             }
         }
-        Ok(Ok((tt, free, seen)))
+        Ok(Ok((tt, free, vars)))
     });
     rsbdd::verif_hooks::set_budget(None);
     match r {
-        Caught::Ok(Ok(Ok((tt, free, seen)))) => {
+        Caught::Ok(Ok(Ok((tt, free, vars)))) => {
             if tt != *func {
-                vs.push(viol("C11", "O4", "function", format!("`{}` under an API ordering with ids {:?} denotes a different function by name", model.text, ids)));
+                vs.push(viol("C11", "O4", "function", format!("`{}` under the API ordering {:?} denotes a different function by name", model.text, entries)));
             }
             let mut want_free = model.free.clone();
-            want_free.sort_by_key(|n| ids[names.iter().position(|x| x == n).expect("name")]);
+            want_free.sort_by_key(|n| id_of[n]);
             if free != want_free {
-                vs.push(viol("C11", "O4", "free_vars", format!("free_vars {:?}, expected {:?} (id order)", free, want_free)));
+                vs.push(viol("C11", "O4", "free_vars", format!("`{}` under the API ordering {:?}: free_vars {:?}, expected {:?} (id order)", model.text, entries, free, want_free)));
             }
-            let mut all = names.clone();
-            all.sort_by_key(|n| ids[names.iter().position(|x| x == n).expect("name")]);
-            if seen != all {
-                vs.push(viol("C11", "O4", "vars", format!("vars {:?}, expected {:?}", seen, all)));
+            let mut all: Vec<(String, usize)> = names.iter().map(|n| (n.clone(), id_of[n])).collect();
+            all.sort_by_key(|(_, id)| *id);
+            if vars != all {
+                vs.push(viol("C11", "O4", "vars", format!("`{}` under the API ordering {:?}: vars {:?}, expected each name once in id order with listed ids kept {:?}", model.text, entries, vars, all)));
             }
         }
-        Caught::Ok(Ok(Err(e))) => vs.push(viol("C11", "O4", "tables", format!("`{}` with API ids {:?}: {e}", model.text, ids))),
+        Caught::Ok(Ok(Err(e))) => vs.push(viol("C11", "O4", "tables", format!("`{}` with API ordering {:?}: {e}", model.text, entries))),
         Caught::Ok(Err(_)) => bump(stats, "probe.api.rejected"),
-        Caught::Panic(m, l) => vs.push(viol("C11", "O4", &format!("panic@{l}"), format!("`{}` with API ordering ids {:?} panicked: {m} @ {l}", model.text, ids))),
+        Caught::Panic(m, l) => vs.push(viol("C11", "O4", &format!("panic@{l}"), format!("`{}` with API ordering {:?} panicked: {m} @ {l}", model.text, entries))),
         _ => {}
     }
 }
@@ -992,7 +1030,7 @@ pub fn minimise_table(plan: &TablePlan, v: &Violation) -> (TablePlan, Violation)
         }
     };
     // options first
-    for k in 0..12 {
+    for k in 0..13 {
         let mut c = best.clone();
         match k {
             0 => c.noise = 0,
@@ -1000,6 +1038,7 @@ pub fn minimise_table(plan: &TablePlan, v: &Violation) -> (TablePlan, Violation)
             2 => c.round_trip = false,
             3 => c.compare_default_order = false,
             4 => c.api_ids = None,
+            12 => c.straddle = None,
             5 => c.ordering = None,
             6 => c.b = None,
             7 => c.r = false,
@@ -1009,7 +1048,8 @@ pub fn minimise_table(plan: &TablePlan, v: &Violation) -> (TablePlan, Violation)
                 c.filter = 0;
                 c.filter_spelling = "any".into();
             }
-            _ => c.channel = Channel::Evaluate,
+            11 => c.channel = Channel::Evaluate,
+            _ => {}
         }
         attempt(c, &mut best, &mut best_v, &mut budget);
     }
@@ -1034,10 +1074,7 @@ pub fn minimise_table(plan: &TablePlan, v: &Violation) -> (TablePlan, Violation)
             }
             let mut c = best.clone();
             c.formula = Some(cand);
-            if let Some(ids) = &c.api_ids {
-                let n = c.formula.as_ref().map(|f| f.names_in_text_order().len()).unwrap_or(0);
-                c.api_ids = Some(ids.iter().copied().take(n).collect());
-            }
+
             if attempt(c, &mut best, &mut best_v, &mut budget) {
                 improved = true;
                 break;
